@@ -73,6 +73,7 @@ func lemmaPadLenBuckets(a, b string) {
 //@ ensures (err == nil) == (len(data) >= 98+256)
 //@ ensures err == nil ==> token.TokenType == uint16(data[0])*256+uint16(data[1])
 //@ ensures err == nil ==> sameslice(token.Nonce, data[2:34]) && sameslice(token.Context, data[34:66]) && sameslice(token.KeyID, data[66:98]) && sameslice(token.Authenticator, data[98:98+256])
+//@ ensures err == nil ==> tokens.SpecTokenInput(token.TokenType, string(token.Nonce), string(token.Context), string(token.KeyID)) == string(data[:98])
 //@ assigns none
 //@ alloc 0
 //@ end
